@@ -10,7 +10,8 @@ def run(chk):
     yv = build_harness()
     s = chk.seed
     if quick:
-        jobs = [("rec", s * 100 + i, 13, 110, 0) for i in range(8)] + [("rec", s * 100 + 50 + i, 13, 60, 1) for i in range(4)]
+        jobs = [("rec", s * 100 + i, 13, 110, 0) for i in range(8)] + [("rec", s * 100 + 50 + i, 13, 60, 1) for i in range(4)] + \
+               [("rec", s * 100 + 90, 13, 320, 0)]          # every subject once beyond 256 steps
     else:
         jobs = [("rec", s * 100 + i, 26, 400, 0) for i in range(24)] + [("rec", s * 100 + 50 + i, 26, 400, 1) for i in range(16)]
     numfam.record_validate(chk, yv, "c03", jobs)
